@@ -198,7 +198,13 @@ impl<'a> StylesheetParser<'a> for SassParser<'a> {
             }
 
             let indentation = self.read_indentation()?;
-            assert_eq!(indentation, 0);
+            if indentation != 0 {
+                return Err((
+                    "Inconsistent indentation, expected 0 spaces.",
+                    self.toks.current_span(),
+                )
+                    .into());
+            }
         }
 
         Ok(statements)
